@@ -205,3 +205,32 @@ extern "C" void h_methods_agree(void) {
   for (int c = 0; c < NCOMP; ++c) verif_assert(a[c] == b[c], "both quantization entry points produce the same integer for the same coordinate");
   verif_reach();
 }
+
+// C04.inverse_is_dequant / C12 grid: the inverse transform of the attribute layer returns exactly
+// Dequantizer(range, 2^q-1).DequantizeFloat(k) + origin for EVERY stored integer k (in particular k = 2^q, which the
+// encoder produces at the top of the range for q >= 24)
+extern "C" void h_inverse_is_dequant(void) {
+  int q = nondet_i32(); verif_assume(q >= 1 && q <= 30);
+  float mins[NCOMP]; for (int c = 0; c < NCOMP; ++c) mins[c] = nondet_float();
+  float range = nondet_float();
+  AttributeQuantizationTransform t;
+  t.SetParameters(q, mins, NCOMP, range);
+  GeometryAttribute ga; ga.Init(GeometryAttribute::POSITION, nullptr, NCOMP, DT_INT32, false, 4 * NCOMP, 0);
+  PointAttribute portable(ga); portable.SetIdentityMapping(); portable.Reset(1);
+  int32_t k[NCOMP]; for (int c = 0; c < NCOMP; ++c) k[c] = nondet_i32();
+  portable.SetAttributeValue(AttributeValueIndex(0), k);
+  GeometryAttribute gf; gf.Init(GeometryAttribute::POSITION, nullptr, NCOMP, DT_FLOAT32, false, 4 * NCOMP, 0);
+  PointAttribute out(gf); out.SetIdentityMapping(); out.Reset(1);
+  const bool ok = t.InverseTransformAttribute(portable, &out);
+  Dequantizer dq;
+  const bool dok = dq.Init(range, (int32_t)((1u << q) - 1));
+  verif_assert(ok == dok, "inverse transform succeeds iff the dequantizer accepts the parameters");
+  if (ok) {
+    float v[NCOMP]; out.GetValue(AttributeValueIndex(0), v);
+    for (int c = 0; c < NCOMP; ++c) {
+      const float ref = dq.DequantizeFloat(k[c]) + mins[c];
+      verif_assert(fbits(v[c]) == fbits(ref), "decoded value == Dequantizer(k) + origin for every stored integer k");
+    }
+  }
+  verif_reach();
+}
